@@ -8,7 +8,7 @@ from vlib.core import AnalysisError, Report
 from vlib.flow import parent_map
 from vlib.guards import GuardWalker
 from vlib.match import X, closure, deref, has_call, inlined_bodies, nodes
-from vlib.srcindex import SourceIndex, attr_chain, unparse, walk_no_nested, mangle
+from vlib.srcindex import SourceIndex, attr_chain, const_str, unparse, walk_no_nested, mangle
 from vlib.typer import Typer
 
 EXPLANATION = (
@@ -177,6 +177,7 @@ def run(rep: Report, tier: str) -> None:
 		calls = [attr_chain(n.func) for n in ast.walk(m.node) if isinstance(n, ast.Call)]
 		ident.check('self._gen_filepath' in calls, f'symbols:{m.name}-uses-gen_filepath', m.where, f'SymbolDBPersistor.{m.name} no longer derives the file path from _gen_filepath (store and restore must agree on the identity-bearing name)')
 	rule_module_selection(rep, idx)
+	rule_eviction_pattern(rep, idx)
 	rule_key_sources_state(rep, idx)
 	rep.extra_coverage['effects_reached'] = total_effects
 	rep.extra_coverage['entries'] = [e.qualname for e in entries]
@@ -314,3 +315,60 @@ def rule_key_sources_state(rep: Report, idx) -> None:
 				r.ok(o.key, (o.file, o.line))
 	if n_ == 0:
 		r.ok('loader-and-cache-clean', None, message='no process-global container in the loader / cache modules')
+
+
+def rule_eviction_pattern(rep: Report, idx) -> None:
+	"""A cache file is named `<key>-<identity hash><ext>`; before a new one is written, the files `<key>-*<ext>` of earlier identities are removed — this is
+	what keeps a file written for an earlier (mtime, ...) identity from being found again when that identity recurs with other content. The eviction
+	pattern is derived from the new file's own absolute path, so the identity must be cut off at the LAST `-` (the separator gen_cache_path wrote; the
+	hash and the extension contain none). A cut at the FIRST `-` takes whatever precedes the first hyphen of the working directory or of the key: the
+	pattern matches none of the old files (they survive) and may match unrelated files next to the project (they are deleted)."""
+	from vlib.match import FI, closure_fi, nodes
+	cache = idx.mod('rogw/tranp/cache/cache.py')
+	r = rep.rule('C05/eviction-pattern-strips-own-suffix', 'CachedProxy.find_oldest derives the glob of older cache files from the cache path by cutting at the last `-` (the separator gen_cache_path writes before the identity), never at the first', floor=1)
+	cp = cache.cls('CachedProxy')
+	f = cp.method('find_oldest') if cp else None
+	g = cp.method('gen_cache_path') if cp else None
+	if f is None or g is None:
+		r.skip('find_oldest', (cache.relpath, 1), 'CachedProxy.find_oldest / gen_cache_path vanished')
+		return
+	# the separator gen_cache_path writes between key and identity
+	seps = set()
+	for n in nodes(FI(g), ast.JoinedStr):
+		parts = n.values
+		for i, p_ in enumerate(parts):
+			if isinstance(p_, ast.Constant) and isinstance(p_.value, str) and i > 0 and i + 1 < len(parts) and isinstance(parts[i + 1], ast.FormattedValue) and 'identifier' in unparse(parts[i + 1]):
+				seps.add(p_.value)
+	if seps != {'-'}:
+		r.skip('find_oldest', g.where, f'gen_cache_path no longer writes `<key>-<identifier>` in one f-string (separators found: {sorted(seps)})')
+		return
+	path_p = [p_ for p_ in f.params() if p_ not in ('self', 'cls')][0]
+	verdict = None
+	for body in closure_fi(f):
+		for c_ in nodes(body, ast.Call):
+			if not (isinstance(c_.func, ast.Attribute) and c_.args and const_str(c_.args[0]) == '-'):
+				continue
+			recv = unparse(c_.func.value)
+			if path_p not in recv and recv not in ('basepath',):
+				continue
+			a = c_.func.attr
+			if a in ('rpartition', 'rsplit', 'rfind', 'rindex'):
+				verdict = verdict or ('ok', c_)
+			elif a in ('partition', 'find', 'index'):
+				verdict = ('bad', c_)
+			elif a == 'split':
+				# split('-')[:-1] re-joined keeps everything up to the last separator; split('-')[0] / split('-', 1) cut at the first
+				maxsplit = len(c_.args) > 1 or any(k.arg == 'maxsplit' for k in c_.keywords)
+				uses = [x for x in nodes(body, ast.Subscript) if x.value is c_ or (isinstance(x.value, ast.Name) and any(isinstance(s_, ast.Assign) and s_.value is c_ and isinstance(s_.targets[0], ast.Name) and s_.targets[0].id == x.value.id for s_ in nodes(body, ast.Assign)))]
+				drop_last = any(isinstance(x.slice, ast.Slice) and x.slice.lower is None and unparse(x.slice.upper) == '-1' for x in uses)
+				first = any(isinstance(x.slice, ast.Constant) and x.slice.value == 0 for x in uses)
+				if maxsplit or first:
+					verdict = ('bad', c_)
+				elif drop_last:
+					verdict = verdict or ('ok', c_)
+	if verdict is None:
+		r.skip('find_oldest', f.where, 'find_oldest no longer cuts the cache path at `-` in a form this check reads')
+	elif verdict[0] == 'bad':
+		r.violate('find_oldest', (cache.relpath, verdict[1].lineno), f'find_oldest cuts the cache path at its FIRST `-` (`{unparse(verdict[1])}`): the path is absolute, so a hyphen in the working directory (`/home/me/my-project/.cache/...`) or in the cache key makes the eviction pattern `/home/me/my-*<ext>`; the files of earlier identities are never removed (when an mtime recurs with other content the stale tree is loaded: warm output != cold output) and unrelated files matching the pattern are unlinked', unparse(verdict[1]))
+	else:
+		r.ok('find_oldest', (cache.relpath, verdict[1].lineno))
